@@ -101,7 +101,10 @@ package paymentsdb
 //@   props C16
 //@   bounds-safe
 //@   loop * havoc
-//@   site call Put: assert ret(Registrable) == nil && ret(verifyAttempt) == nil
+//@   // an attempt id that is already known (in flight or resolved) is never overwritten (finding F21)
+//@   site call Put: assert ret(Registrable) == nil && ret(verifyAttempt) == nil && ret(Get) == nil && arg(1) == ret(htlcBucketKey)
+//@   site call Get: assert arg(1) == ret(htlcBucketKey)
+//@   site call htlcBucketKey: assert arg(0) == htlcAttemptInfoKey && arg(1) == htlcIDBytes
 //@   site call Registrable: assert arg(m) == retn(fetchPayment, 0) && retn(fetchPayment, 1) == nil
 //@   site call verifyAttempt: assert arg(payment) == retn(fetchPayment, 0) && arg(attempt) == attempt
 //@
